@@ -5,7 +5,9 @@ import (
 	"bytes"
 	"fmt"
 	"io"
+	"net"
 	"testing"
+	"time"
 
 	"github.com/cybergarage/go-redis/redis/proto"
 	"verif/sim/resp"
@@ -85,7 +87,9 @@ func (r *scriptedReader) end() error {
 
 // --- value generation (shared with C06) ---
 
-var bulkLens = []int{0, 1, 2, 3, 5, 16, 255, 256, 4095, 4096, 65535, 65536, 65537, 131075, 131071, 131072, 131073, 262143, 262144, 262145, 524287}
+var bulkLens = []int{0, 1, 2, 3, 5, 16, 255, 256, 4095, 4096, 65535, 65536, 65537, 131075, 131071, 131072, 131073, 262143, 262144, 262145, 524287,
+	// lengths at which payload plus terminator (len+2) is a multiple of 64 KiB, and their neighbours
+	65533, 65534, 131070, 196606, 196607, 262142}
 var payloadPool = []string{"\r", "\n", "\r\n", "\x00", "+", "-", ":", "$", "*", "\r\n+OK\r\n", "$-1\r\n", "*0\r\n", ":1\r\n", "abc", "0", "-1"}
 
 // lineLens: lengths of long line-framed values (simple strings, errors) around powers of two and around small
@@ -220,9 +224,29 @@ type lenReader struct{ *scriptedReader }
 
 func (l lenReader) Len() int { return len(l.data) - l.pos }
 
+// valueEnds: the offset in the current run's stream at which each expected value ends (nil when the stream is
+// not the concatenation of the canonical encodings of the expected values).
+var valueEnds []int
+
+// connReader makes the scripted reader a net.Conn (what a parser is given on a server): reads are the scripted
+// ones, everything else does nothing.
+type connReader struct{ *scriptedReader }
+
+func (connReader) Write(p []byte) (int, error)      { return len(p), nil }
+func (connReader) Close() error                     { return nil }
+func (connReader) LocalAddr() net.Addr              { return sim.Addr{} }
+func (connReader) RemoteAddr() net.Addr             { return sim.Addr{} }
+func (connReader) SetDeadline(time.Time) error      { return nil }
+func (connReader) SetReadDeadline(time.Time) error  { return nil }
+func (connReader) SetWriteDeadline(time.Time) error { return nil }
+
 func parseAll(r *scriptedReader, want []resp.Value, wrap int, deferred bool) (string, string) {
 	var rd io.Reader = r
+	// with the reader handed over directly the bytes a value consumes can be counted: exactly its own
+	counted := (wrap == 0 || wrap == 4) && len(valueEnds) == len(want)
 	switch wrap {
+	case 4:
+		rd = connReader{r}
 	case 1:
 		rd = bufio.NewReaderSize(r, 16)
 	case 2:
@@ -250,6 +274,11 @@ func parseAll(r *scriptedReader, want []resp.Value, wrap int, deferred bool) (st
 		}
 		if m == nil {
 			return "early-eos", fmt.Sprintf("value %d (%s): end of stream reported early", i, w)
+		}
+		if counted {
+			if end := valueEnds[i]; r.pos != end {
+				return "consumption", fmt.Sprintf("value %d (%s) ends at byte %d of the stream, but %d bytes have been taken from the reader when it is returned", i, w, end, r.pos)
+			}
 		}
 		if deferred {
 			msgs = append(msgs, m)
@@ -329,7 +358,19 @@ func runC02(t *testing.T, tape *sim.Tape, tier string) *Outcome {
 		data = append(data, tail.Encode()...)
 		o.stat("wide_arrays", 1)
 	}
-	wrapNames := []string{"", " behind bufio(16)", " behind bufio(4096)", " through a reader that reports Len()"}
+	// where each value ends in the stream (only when the stream is the canonical encoding of the expected values)
+	valueEnds = nil
+	{
+		end, ends := 0, make([]int, 0, len(want))
+		for _, w := range want {
+			end += len(w.Encode())
+			ends = append(ends, end)
+		}
+		if end == len(data) {
+			valueEnds = ends
+		}
+	}
+	wrapNames := []string{"", " behind bufio(16)", " behind bufio(4096)", " through a reader that reports Len()", " handed over as a net.Conn"}
 	checkW := func(r *scriptedReader, desc string, wrap int, deferred bool) {
 		o.Evals++
 		sim.Progress.Add(1) // a run with a wide array or a 128 KiB bulk takes seconds under load: every delivery is progress
@@ -350,6 +391,7 @@ func runC02(t *testing.T, tape *sim.Tape, tier string) *Outcome {
 	// whole
 	check(&scriptedReader{data: data}, "whole")
 	checkW(&scriptedReader{data: data}, "whole", 1, true)
+	checkW(&scriptedReader{data: data}, "whole", 4, false)
 	checkW(&scriptedReader{data: data, piggy: true}, "whole+EOF", 2, true)
 	// every 2-way split (streams up to 4 KiB), both end-of-stream styles alternate
 	if len(data) <= 4096 {
@@ -429,7 +471,7 @@ func runC02(t *testing.T, tape *sim.Tape, tier string) *Outcome {
 		if piggy {
 			o.stat("eof_piggyback", 1)
 		}
-		checkW(&scriptedReader{data: data, cuts: cuts, piggy: piggy}, fmt.Sprintf("cuts%v piggy=%t", cuts, piggy), tape.Draw(4, "wrap"), tape.Draw(2, "deferred") == 1)
+		checkW(&scriptedReader{data: data, cuts: cuts, piggy: piggy}, fmt.Sprintf("cuts%v piggy=%t", cuts, piggy), tape.Draw(5, "wrap"), tape.Draw(2, "deferred") == 1)
 		// the same partition with empty reads ((0, nil): nothing happened) in front of every data read
 		if z := tape.Draw(4, "zeros"); z > 0 {
 			checkW(&scriptedReader{data: data, cuts: cuts, piggy: piggy, zeros: z}, fmt.Sprintf("cuts%v piggy=%t, %d empty reads before each data read", cuts, piggy, z), 0, false)
@@ -458,7 +500,7 @@ func init() {
 	register(&Check{
 		ID: "C02", Bubble: false, Run: runC02,
 		Runs:   map[string]int{"quick": 6000, "thorough": 200000},
-		Rule:   "a case is one (value sequence, read partition) pair: every 2-way split and the all-1-byte delivery of each generated stream <= 4 KiB plus 4 seeded k-way partitions biased to structural offsets; for streams with bulks of 1 KiB..512 KiB (2^k-1, 2^k, 2^k+1 up to k=19) every split within [-20,+4] bytes of each power-of-two offset of the payload; every split is also delivered through a bufio.Reader (16-byte and default buffer) or a reader that also reports Len() in front of the chunking reader with the returned messages inspected only after the whole stream was parsed (a parsed value must not change when the parser reads on), end of stream arriving alone or together with the last bytes; one line-framed value in sixteen is 255..131070 bytes long (powers of two +-1 and small multiples of 2^k-1); deliveries with 1..3 empty reads (0 bytes, no error) in front of every data read; distinct = distinct (stream, partition) hashes; non-trivial = stream longer than 4 bytes",
+		Rule:   "a case is one (value sequence, read partition) pair: every 2-way split and the all-1-byte delivery of each generated stream <= 4 KiB plus 4 seeded k-way partitions biased to structural offsets; for streams with bulks of 1 KiB..512 KiB (2^k-1, 2^k, 2^k+1 up to k=19) every split within [-20,+4] bytes of each power-of-two offset of the payload; every split is also delivered through a bufio.Reader (16-byte and default buffer) or a reader that also reports Len() in front of the chunking reader with the returned messages inspected only after the whole stream was parsed (a parsed value must not change when the parser reads on), end of stream arriving alone or together with the last bytes; one line-framed value in sixteen is 255..131070 bytes long (powers of two +-1 and small multiples of 2^k-1); with the reader handed over directly (also typed as a net.Conn) the bytes taken from it when a value is returned are exactly those up to the end of that value; deliveries with 1..3 empty reads (0 bytes, no error) in front of every data read; distinct = distinct (stream, partition) hashes; non-trivial = stream longer than 4 bytes",
 		Real:   []string{"redis/proto parser (NewParserWithReader, Next)"},
 		Stub:   []string{"transport: scripted io.Reader deciding read sizes and end-of-stream style"},
 		Assume: []string{"readers never return (0, nil)"},
